@@ -85,6 +85,9 @@ def run(ctx):
     if h is None:
         ctx.proof_failures.append({"file": "harness", "decl": "harness build", "line": 0, "msg": getattr(ctx, "harness_error", "")})
         return ctx.finish()
+    # Tie A: the loops of the tree under test, classified by how they answer to the interrupt
+    import translator.poll_sites as poll_sites
+    poll_sites.generate()
     ctx.lean_build([MODULE])
     ctx.audit(MODULE, REL)
     if not quick:
